@@ -244,7 +244,8 @@ pub fn deep_coincidence(reg: &PortableRegistry, id: u32) -> bool {
             continue;
         }
         let Some(gt) = reg.resolve(g) else { continue };
-        if !is_generated(gt) {
+        // any named type, prelude ones included: types_equal walks into Duration, NonZero*, ...
+        if gt.path.segments.is_empty() || !matches!(gt.type_def, TypeDef::Composite(_) | TypeDef::Variant(_)) {
             continue;
         }
         // children of g reached without going through one of g's own parameters
@@ -255,7 +256,7 @@ pub fn deep_coincidence(reg: &PortableRegistry, id: u32) -> bool {
                 continue;
             }
             if let Some(xt) = reg.resolve(x) {
-                if !is_generated(xt) {
+                if xt.path.segments.is_empty() {
                     stack.extend(children(xt, true, true));
                 }
             }
@@ -266,4 +267,43 @@ pub fn deep_coincidence(reg: &PortableRegistry, id: u32) -> bool {
         }
     }
     false
+}
+
+/// Entries that belong to a same-path family with a coincidence in one of its members (the
+/// group heads types_equal compares against may be the coinciding ones), used only to key
+/// known findings.
+pub fn tainted_by_coincidence(reg: &PortableRegistry, noncf: &BTreeSet<u32>) -> BTreeSet<u32> {
+    let mut out = BTreeSet::new();
+    for ids in families(reg).values() {
+        if ids.iter().any(|i| noncf.contains(i) || deep_coincidence(reg, *i)) || non_transitive(reg, ids) {
+            out.extend(ids.iter().copied());
+        }
+    }
+    out
+}
+
+/// The oracle's shape relation is not transitive on this family: some member is consistent with
+/// two different definitions because one of its arguments coincides with what the other
+/// definition has written out (e.g. Bar<i64>{g: T} next to another version's Bar<u8>{g: i64}).
+pub fn non_transitive(reg: &PortableRegistry, ids: &[u32]) -> bool {
+    if ids.len() < 3 || ids.len() > 16 {
+        return false;
+    }
+    let eq = |a: u32, b: u32| crate::regeq::reg_equiv(reg, a, b) && crate::regeq::reg_equiv(reg, b, a);
+    for (i, a) in ids.iter().enumerate() {
+        for b in &ids[i + 1..] {
+            if !eq(*a, *b) {
+                // a and b differ: no third member may be equivalent to both
+                if ids.iter().any(|c| c != a && c != b && eq(*a, *c) && eq(*c, *b)) {
+                    return true;
+                }
+            }
+        }
+    }
+    false
+}
+
+/// Is a coincidence involved anywhere at or below the given entries?
+pub fn coincidence_involved(reg: &PortableRegistry, ids: &[u32], tainted: &BTreeSet<u32>) -> bool {
+    reachable(reg, ids, true, true).iter().any(|i| tainted.contains(i))
 }
